@@ -52,7 +52,7 @@ def run(tier, seed, rng):
             groups.append(G)
             gid += 1
     # ---- part 2: random declarations, every truncation of valid encodings + corrupted + random inputs
-    ng = 50 if tier == 'quick' else 500
+    ng = 50 if tier == 'quick' else 2000
     groups2 = pktprops.make_groups(rng, ng, lambda g: dict(generic_unpack=(g % 2 == 0)), values_per_class=2 if tier == 'quick' else 4,
                                    offsets=(2,), maxcuts=24, flips=3, record=True, defaults=False, tag_base=gid)
     for G in groups2:
